@@ -38,6 +38,14 @@ func concretise(r *run, o *fovc.Obligation, model string) *replayResult {
 	if r.prop == "C09" {
 		return replayExhaustive(r, o, model)
 	}
+	if r.prop == "C08" && (pkg == "main" || pkg == "scan") {
+		out, _ := runOverlayTestFiles(filepath.Join(repoDir, "fc"), map[string]string{"zz_verif_replay_c08_test.go": filepath.Join(verifDir, "replay/fc_c08_replay_test.go")}, "TestVerifReplayC08", []string{"VERIF_REPLAY_C08=1"}, 120*time.Second)
+		txt, rep := filterReplayLines(out)
+		if txt == "" {
+			txt = out
+		}
+		return &replayResult{Text: "operator chains of up to 3 operators through the real parser and emitter, compared with a table-driven reference\ncommand: (cd /repo/fc && VERIF_REPLAY_C08=1 go test -overlay <zz_verif_replay_c08_test.go => /verif/replay/fc_c08_replay_test.go> -vet=off -run TestVerifReplayC08 -v .)\n" + txt, Reproduced: rep}
+	}
 	if f, ok := replayers[pkg]; ok {
 		return f(r, o, model)
 	}
